@@ -11,7 +11,11 @@ TRUSTED = [
     "its output is ALSO run against the real functions by the h_c09 correspondence of this run, so a translator bug shows as a diff",
     "clang++-14's AST (implicit conversions) agrees with the g++ build on LP64 (checked by the same correspondence)",
     "hand-written callee models in lean/CppUModel/Model/MockValue.lean (SimpleString(const char*) ==, MemCmp, doubles_equal class "
-    "logic, comparator call), tied to the code by the h_c09 correspondence only",
+    "logic, comparator call, the StringFrom/HexStringFrom/StringFromBinary renderings) and the hand-written list / repository / "
+    "name / setObjectPointer model in Model/MockNamedValueList.lean: tied to the code by the h_c09 correspondence and by the "
+    "shape checks of translate/c09_shapes.py (55 function bodies; a changed body is reported like a broken obligation)",
+    "libc: printf %d/%u/%ld/%lu/%lld/%llu/%x/%lx/%llx/%02X mean decimal / lower- and upper-case hexadecimal (modelled, checked by "
+    "the correspondence); the %.6g rendering of a finite double and machine addresses are environment inputs of toString",
     "STRCMP_EQUAL fails the test and does not return exactly when the two strings differ (C03 area)",
     "IEEE-754 double arithmetic of the hardware for finite operands (fabs(a-b) <= t): same hardware on both sides of the diff",
 ]
@@ -26,7 +30,11 @@ RULE = ("all 36 ordered integer type pairs x the boundary lattice squared (exhau
         "(v, v +- 2^32, v +- 2^64 reinterpreted in the other type) of random 64-bit values; every getter on every lattice value and on "
         "random values; non-integer pairs sampled (strings incl. empty/NULL/high bytes, buffers incl. size 0, doubles incl. NaN/+-inf/+-0 "
         "with zero/negative/inf/NaN tolerances, bools, pointers, custom objects with and without comparator) and mixed-type pairs; "
-        "non-trivial = an op on two different types, an alias pair or a getter; distinct = distinct op lists")
+        "toString on every lattice value and sampled values of every type (doubles incl. finite ones above FLT_MAX, buffers of "
+        "0/127/128/129/300 bytes), compatibleForCopying pairs, all non-integer getters, names, and stateful histories of the value "
+        "list (duplicate names) and of four comparator/copier repositories (install, lookup, import, clear, default switch, object "
+        "values created in between); non-trivial = an op on two different types, an alias pair, a getter, a rendering or a "
+        "lookup; distinct = distinct op lists")
 
 RANGE = {
     "int": (-2**31, 2**31 - 1), "uint": (0, 2**32 - 1),
@@ -76,14 +84,19 @@ def fbits(h):
 
 NAN = "7ff8000000000000"
 NAN2 = "fff0000000000001"   # a signalling-style NaN with the sign bit set
+FLT_MAX = 3.4028234663852886e38
+# finite doubles above FLT_MAX (and just around it) are in the sample: an isinf/isnan that goes through `float` would
+# misclassify them
 DVALS = [dbits(x) for x in (0.0, -0.0, 1.0, -1.0, 1.005, 1.0049999, 1.0050001, 0.995, 1e308, -1e308, 1.7976931348623157e308,
-                            5e-324, 2.0, 1.0 + 2**-52, 123456.789, float("inf"), float("-inf"))] + [NAN, NAN2]
-DTOLS = [dbits(x) for x in (0.0, 0.005, 0.01, 1.0, -1.0, -0.0, 5e-324, 1e308, 1.7976931348623157e308, float("inf"), float("-inf"))] + [NAN]
+                            -1.7976931348623157e308, 5e-324, 2.0, 1.0 + 2**-52, 123456.789, FLT_MAX, -FLT_MAX, 3.5e38, -3.5e38,
+                            1e39, 1e39 + 1e24, -1e39, 1e200, 1234567.0, 1e-7, float("inf"), float("-inf"))] + [NAN, NAN2]
+DTOLS = [dbits(x) for x in (0.0, 0.005, 0.01, 1.0, -1.0, -0.0, 5e-324, 1e308, 1.7976931348623157e308, 3.5e38, 1e39, 1e24,
+                            float("inf"), float("-inf"))] + [NAN]
 STRS = ["-", "null", "61", "62", "6162", "616263", "6163", "41", "80", "ff", "7f", "61ff", "6180", "610062", "6100", "00",
         "20", "6162636465666768696a6b6c6d6e6f707172737475767778797a", "6162636465666768696a6b6c6d6e6f707172737475767778797b"]
 MEMS = ["-", "00", "01", "ff", "0000", "0001", "00ff", "ff00", "6162", "616263", "616200", "000000", "800000", "7f0000",
         "0102030405060708090a0b0c0d0e0f10", "0102030405060708090a0b0c0d0e0f11", "0202030405060708090a0b0c0d0e0f10"]
-OBJ_TYPES = ["CmpMod3", "CmpId", "NoCmp", "Other", "CmpMod3x"]
+OBJ_TYPES = ["CmpMod3", "CmpId", "NoCmp", "Other", "CmpMod3x", "T1", "T2"]
 
 
 def rand_int(rng, kind):
@@ -104,8 +117,10 @@ def rand_nonint(rng):
     x = rng.random()
     if x < 0.1:
         return "bool:%d" % rng.randint(0, 1)
-    if x < 0.35:
+    if x < 0.32:
         return "dbl:%s:%s" % (rng.choice(DVALS), rng.choice(DTOLS))
+    if x < 0.35:
+        return "dbld:%s" % rng.choice(DVALS)
     if x < 0.55:
         if rng.random() < 0.25:
             return "str:" + "".join("%02x" % rng.choice([0x61, 0x62, 0x80, 0xff, 0x20, 0x41]) for _ in range(rng.randint(1, 6)))
@@ -125,6 +140,11 @@ def same_kind_partner(rng, t):
     k = w[0]
     if k == "bool":
         return "bool:%d" % rng.randint(0, 1)
+    if k == "dbld":
+        a = fbits(w[1])
+        if a == a and abs(a) < 1e300 and rng.random() < 0.6:
+            return "dbld:%s" % dbits(a + rng.choice([0.005, -0.005, 0.0049, 0.0051, 0.0, 1.0]))
+        return rng.choice(["dbld:%s" % rng.choice(DVALS), "dbl:%s:%s" % (w[1], rng.choice(DTOLS))])
     if k == "dbl":
         if rng.random() < 0.35:            # a value at (about) the tolerance's distance: the `<=` boundary
             a, t = fbits(w[1]), fbits(w[2])
@@ -226,7 +246,91 @@ def generate(rng, tier):
             "eq dbl:%s:%s llong:1" % (dbits(1.0), dbits(0.005))]
     for c in chunks(ops, 64):
         out.append(("nonint", c))
-    # 6. malformed stream: tokens the harness must reject (`> skip`) mixed with valid ones
+    # 6. the rest of MockNamedValue: toString, compatibleForCopying, the other getters, names
+    n_rest = 500 if tier == "quick" else 12000
+    ops = ["tostr %s" % tok(k, v) for k in INT_KINDS for v in lattice_of(k)]
+    ops += ["tostr bool:0", "tostr bool:1", "tostr str:null", "tostr str:-", "tostr mem:-", "tostr ptr:0", "tostr fptr:0",
+            "tostr mem:" + "ab" * 127, "tostr mem:" + "cd" * 128, "tostr mem:" + "ef" * 129, "tostr mem:" + "00" * 300,
+            "name - -", "name null null", "name 6162 null", "name 610062 6300", "getx mem:-", "getx str:null", "getx str:-"]
+    ops += ["tostr dbl:%s:%s" % (v, DTOLS[1]) for v in DVALS] + ["tostr dbld:%s" % v for v in DVALS[:6]]
+    ops += ["getx dbl:%s:%s" % (v, rng.choice(DTOLS)) for v in DVALS] + ["getx dbld:%s" % v for v in DVALS[:4]]
+    for _ in range(n_rest):
+        y = rng.random()
+        a = tok(rng.choice(INT_KINDS), 0) if False else None
+        if rng.random() < 0.3:
+            k = rng.choice(INT_KINDS)
+            a = tok(k, rand_int(rng, k))
+        else:
+            a = rand_nonint(rng)
+        if y < 0.35:
+            ops.append("tostr %s" % a)
+        elif y < 0.6:
+            ops.append("getx %s" % a)
+        elif y < 0.9:
+            if rng.random() < 0.5:
+                b = rand_nonint(rng)
+            else:
+                b = same_kind_partner(rng, a) if a.split(":")[0] not in RANGE else tok(rng.choice(INT_KINDS), 1)
+            ops.append("compat %s %s" % (a, b))
+        else:
+            nm = lambda: rng.choice(["-", "null", "61", "6162", "6100", "ff80", "70617261 6d".replace(" ", "")])
+            ops.append("name %s %s" % (nm(), nm()))
+    for k in range(0, 3):
+        ops += ["compat ptr:%d cptr:%d" % (k, k), "compat cptr:%d ptr:%d" % (k, k), "compat fptr:%d ptr:%d" % (k, k),
+                "compat obj:T1:%d cobj:T1:%d" % (k, k), "compat obj:T1:%d obj:T2:%d" % (k, k), "compat int:%d uint:%d" % (k, k),
+                "compat long:%d llong:%d" % (k, k)]
+    for c in chunks(ops, 32):
+        out.append(("rest", c))
+    # 7. stateful histories: the value list (first match wins) and the repositories (install / lookup / import / default)
+    n_hist = 60 if tier == "quick" else 1500
+    NAMES = ["61", "62", "6162", "-", "6100", "41", "ff", "6161"]
+    for _ in range(n_hist):
+        ops, added = [], []
+        for _ in range(rng.choice([4, 10, 25])):
+            y = rng.random()
+            if y < 0.35:
+                nm = rng.choice(added) if added and rng.random() < 0.4 else rng.choice(NAMES)     # duplicates are frequent
+                added.append(nm)
+                ops.append("ladd %s %s" % (nm, rand_nonint(rng) if rng.random() < 0.6 else tok("int", rng.randint(-3, 3))))
+            elif y < 0.9:
+                ops.append("lget %s" % (rng.choice(added) if added and rng.random() < 0.7 else rng.choice(NAMES + ["63", "610063"])))
+            elif y < 0.96:
+                ops.append("llist")
+            else:
+                ops.append("lclear")
+                added = []
+        ops.append("llist")
+        out.append(("list", ops))
+    for _ in range(n_hist):
+        ops = []
+        focus_r = [rng.randint(0, 3), rng.randint(0, 3)]
+        focus_t = [rng.choice(OBJ_TYPES), rng.choice(OBJ_TYPES)]
+        for _ in range(rng.choice([5, 12, 30])):
+            y = rng.random()
+            r = rng.choice(focus_r) if rng.random() < 0.8 else rng.randint(0, 3)
+            t = rng.choice(focus_t) if rng.random() < 0.8 else rng.choice(OBJ_TYPES)
+            if y < 0.22:
+                ops.append("rcmp %d %s %d" % (r, t, rng.randint(1, 4)))
+            elif y < 0.34:
+                ops.append("rcop %d %s %d" % (r, t, rng.randint(1, 2)))
+            elif y < 0.54:
+                ops.append("rget %d %s" % (r, t))
+            elif y < 0.62:
+                ops.append("rimport %d %d" % (r, rng.choice(focus_r) if rng.random() < 0.7 else rng.randint(0, 3)))
+            elif y < 0.65:
+                ops.append("rclear %d" % r)
+            elif y < 0.73:
+                ops.append("rdefault %s" % (str(rng.choice(focus_r)) if rng.random() < 0.6 else rng.choice(["0", "1", "2", "3", "none"])))
+            elif y < 0.85:
+                a = "%s:%s:%d" % (rng.choice(["obj", "cobj"]), t, rng.randint(0, 7))
+                b = "%s:%s:%d" % (rng.choice(["obj", "cobj"]), t if rng.random() < 0.8 else rng.choice(OBJ_TYPES), rng.randint(0, 7))
+                ops.append("eq %s %s" % (a, b))
+            elif y < 0.93:
+                ops.append("getx %s:%s:%d" % (rng.choice(["obj", "cobj"]), t, rng.randint(0, 7)))
+            else:
+                ops.append("tostr %s:%s:%d" % (rng.choice(["obj", "cobj"]), t, rng.randint(0, 7)))
+        out.append(("repo", ops))
+    # 8. malformed stream: tokens the harness must reject (`> skip`) mixed with valid ones
     bad = ["int:2147483648", "int:-2147483649", "uint:-1", "uint:4294967296", "long:9223372036854775808", "ulong:-1",
            "ulong:18446744073709551616", "llong:-9223372036854775809", "ullong:99999999999999999999999", "int:", "int:abc",
            "int:1.5", "bool:2", "dbl:123", "dbl:zz:zz", "str:6", "str:zz", "mem:0", "ptr:99", "fptr:-1", "obj::1", "obj:A+B:1",
@@ -243,7 +347,10 @@ def generate(rng, tier):
             elif y < 0.85:
                 ops.append(("get %s" % a).rstrip())
             else:
-                ops.append(rng.choice(["eq", "get", "eq int:1", "frob int:1 int:1", "eq int:1 int:1 int:1"]))
+                ops.append(rng.choice(["eq", "get", "eq int:1", "frob int:1 int:1", "eq int:1 int:1 int:1", "tostr", "tostr foo:1",
+                                       "compat int:1", "name 6", "name zz -", "ladd null int:1", "ladd 61 int:99999999999", "lget null",
+                                       "rcmp 9 T1 1", "rcmp 0 T1 0", "rcmp 0 T1 5", "rcop 0 T1 3", "rcmp 0 int 1", "rget 4 T1",
+                                       "rimport 0 7", "rdefault 5", "rclear x", "getx", "dbld:12"]))
         out.append(("malformed", ops))
     return out
 
@@ -274,6 +381,8 @@ def nontrivial(r):
             k = _kinds(l[2:])
             if len(k) == 2 and k[0] != k[1]:
                 return True
+        if l.split()[:2][-1] in ("tostr", "compat", "getx", "lget", "rget", "rimport"):
+            return True
     return False
 
 
@@ -314,8 +423,18 @@ def observe(r, rep):
                         rep.count("dbl.infinite_operand")
             else:
                 rep.count("mixed_types")
-        elif cur[0] == "get" and len(w) >= 2:
+        elif cur[0] in ("get", "getx") and len(w) >= 2:
             rep.count("getter.%s.%s" % (w[0], w[1]))
+        elif cur[0] == "tostr" and w[0] == "s" and len(cur) == 2:
+            rep.count("toString.%s" % cur[1].split(":")[0].replace("cobj", "obj"))
+        elif cur[0] == "compat" and w[0] == "c":
+            rep.count("compatibleForCopying.%s%s" % (w[1], w[2]))
+        elif cur[0] == "lget" and w[0] == "item":
+            rep.count("list.lookup_%s" % ("miss" if w[1] == "none" else "hit"))
+        elif cur[0] == "rget" and w[0] == "got":
+            rep.count("repo.lookup_cmp_%s_cop_%s" % ("hit" if w[1] != "0" else "miss", "hit" if w[2] != "0" else "miss"))
+        elif cur[0] in ("ladd", "rcmp", "rcop", "rimport", "rclear", "rdefault", "name", "llist"):
+            pass
 
 
 def signature(r):
@@ -347,7 +466,11 @@ LEVEL_TEXT = ("Machine-checked Lean 4 theorems, for ALL values (every 32/64-bit 
               "exactly the stored integer or fails. The generated functions and the hand-written callee models are run against the real "
               "code (ASan/UBSan) on the exhaustive boundary lattice and on sampled values in every run, and the implementation's own "
               "answers are judged by an independent oracle.")
-LEVEL_NOTE = ("Proved: all integer/type-dispatch logic of equals and the getters (over the regenerated model). Observed only "
+LEVEL_NOTE = ("Also proved (same regenerated model + hand-written list/repository model): toString of integers (decimal of the "
+              "denoted integer + hex of the two's-complement pattern at the type's width), bool, string, buffer (loop = blank-separated "
+              "%02X, 128-byte cut), double classes, pointers, objects; compatibleForCopying; every setter/getter round trip; list: "
+              "first added value of a name wins; repository: latest install wins, kinds independent, import reverses the order. "
+              "Proved: all integer/type-dispatch logic of equals and the getters (over the regenerated model). Observed only "
               "(correspondence + oracle on sampled inputs): that the callee models (StrCmp/MemCmp loops, doubles_equal class logic, "
               "hardware double arithmetic, comparator dispatch) and the translator's reading of the AST agree with the compiled code. "
               "Trusted: Lean kernel, clang's AST, STRCMP_EQUAL semantics, LP64.")
